@@ -271,3 +271,16 @@ def run(ctx):
     from rules.rtcommon import buffer_capacity
     wf = prog.fn("write_evbuf", OV)
     _check_write_loop(ctx, prog, eff, buffer_capacity(ctx), wf, rule="R10.3")
+
+
+_run_base = run
+
+
+def run(ctx):
+    _run_base(ctx)
+    prog = ctx.prog
+    ctx.rule("R10.4", "relocation never leaves less than it found: move_thread_to_final removes the source only after "
+             "the destination was written and closed successfully (C09 R9.2's copy-complete-on-return evaluation)")
+    from rules import round3
+    round3.share(ctx, "R10.4", "C09", lambda i_: i_["rule"] == "R9.2" and "copy-complete" in i_["inst"], "relocation:",
+                 "a failing close of the copy deletes the only complete stream", 1)
